@@ -489,6 +489,12 @@ func init() {
 			return runDominatingRestore(c, "PAIR.load-package", "lisp.(*LEnv).load", "lisp.Runtime.Package")
 		}})
 
+	register(&Rule{ID: "LOC.eval-restores", Floor: 1,
+		Doc: "LEnv.Eval — the entry every special operator uses to evaluate one of its sub-forms in its own environment — saves the environment's current location and restores it by a defer that dominates the evaluation: when the sub-form is done the location is the operator's form again, so an operator that then rejects its arguments (cond `argument is not a pair`, let, dotimes, assert) is reported at its own call expression, in agreement with the innermost frame of the trace, not at the last sub-form it evaluated",
+		Run: func(c *Ctx) []Obligation {
+			return runDominatingRestore(c, "LOC.eval-restores", "lisp.(*LEnv).Eval", "lisp.LEnv.loc")
+		}})
+
 	register(&Rule{ID: "PAIR.loader-package", Floor: 1,
 		Doc: "the Loader that TextLoader returns — the remaining `evaluate this source text` entry point that does not go through load — saves Runtime.Package and restores it by a defer that dominates every evaluation of a form of the stream: an in-package in the text does not leak to the code that runs the loader",
 		Run: func(c *Ctx) []Obligation {
